@@ -2,6 +2,7 @@ import Driver.Util
 import ZvbiModel.Ure.Exec
 import ZvbiModel.Ure.Dfa
 import ZvbiModel.Ure.Current
+import ZvbiModel.Ure.CurrentExec
 /-! Driver of the `ure` model (C17); same line protocol as harness/ure_harness.c -/
 namespace Zvbi.Driver.Ure
 open Zvbi.Driver Zvbi.Ure
@@ -80,7 +81,7 @@ def step (s : St) (ws : List String) : St × String :=
         match s.dfa with
         | none => (s, "rej nodfa")
         | some d =>
-          match exec Shape.current CType.probed d f text with
+          match execCur CType.probed d f text with
           | .none => (s, "ok none")
           | .found ms me => (s, "ok " ++ toString ms ++ " " ++ toString me)
           | .oob site => (s, "fault oob " ++ site)
